@@ -177,7 +177,10 @@ def model_leaf(w, view, rec, i, active=None, property_discount=True):
       # when they are ambiguous (eigenvalue at the cut-off), else the model's
       iroots = [view.roots(new, i, ax) for ax in range(rank)]
       out['impl_roots'] = iroots
-      use = iroots if r['ambiguous'] else r['roots']
+      # the direction is computed from the roots the implementation stores
+      # (validated on their own by step_roots with a conditioning-aware
+      # tolerance), so the update tolerance only carries the application error
+      use = iroots
       base = ref.shampoo_direction(lay, g, use)
       out['roots_norm'] = [float(np.max(np.abs(x))) if x.size else 0.0
                            for x in use]
@@ -203,6 +206,9 @@ def model_leaf(w, view, rec, i, active=None, property_discount=True):
       # direction: use the implementation's stored sketch (sign/rotation of
       # eigenvectors is not unique); the sketch itself is checked separately
       base = ref.unpad_unmerge(ref.sketchy_direction(x, iaxes), lay)
+      out['roots_norm'] = [max(float(np.max(np.abs(a['inv']))) if a['inv'].size
+                               else 0.0, abs(a['inv_tail']), 1e-300)
+                           for a in iaxes]
   acc = view.acc(prev, i)
   gamma, new_acc = ref.graft_step(cfg, g, acc if acc is not None else 0.0)
   out['gamma'], out['acc'] = gamma, new_acc
@@ -269,6 +275,7 @@ def refine(ctx, rec):
           ir = view.roots(new, i, ax)
           pr = view.roots(prev, i, ax)
           ctx.ev('step_roots', 'ok' if np.array_equal(ir, pr) else 'violation')
+    if not lay['masked']:
       cond_amp = float(np.prod([max(x, 1e-300) for x in m['roots_norm']]))
     if m['acc'] is not None and view.acc(new, i) is not None:
       _cmp(ctx, 'step_graft_acc', mk, t, i, view.acc(new, i), m['acc'],
@@ -439,8 +446,120 @@ def graft(ctx, rec):
   ctx.state('graft', mk, gt, int(t >= S), rec['opkind'])
 
 
+# ------------------------------------------------ C09 frequent directions
+def fd(ctx, rec):
+  """Sketch state of Tearfree Sketchy against the exact float64 covariance."""
+  from sim import fd_oracle
+  w, view = rec['world'], rec['view']
+  cfg, t = w.cfg, rec['t']
+  if view.so != 'sketchy':
+    return
+  mk = _modekey(w)
+  o = cfg['sketchy']
+  beta = o['second_moment_decay']
+  hist = ctx.__dict__.setdefault('hist', {})
+  cov = hist.setdefault('cov', {})
+  lowrank = hist.setdefault('lowrank', {})
+  upd_tick = t % o['update_freq'] == 0
+  for i, lay in enumerate(view.lays):
+    if lay['masked']:
+      continue
+    rank = len(lay['padded'])
+    if i in rec['poisoned']:
+      ctx.ev('fd_bracket', 'muted')
+      for ax in range(rank):
+        cov.pop((i, ax), None)
+      continue
+    x = ref.merge_pad(rec['grads'][i], lay)
+    for ax in range(rank):
+      a0 = view.axis(rec['prev'], i, ax)
+      a1 = view.axis(rec['new'], i, ax)
+      d, k = a1['V'].shape
+      key = (i, ax)
+      if key not in cov:
+        if t != 0 and not np.all(a0['e'] == 0):
+          continue      # history unknown (joined mid-run)
+        cov[key] = np.zeros((d, d))
+        lowrank[key] = True
+      if not upd_tick:
+        continue
+      G = np.moveaxis(x, ax, 0).reshape(x.shape[ax], -1)
+      cov[key] = beta * cov[key] + G @ G.T
+      C = cov[key]
+      ell1 = a1['e'] ** 2
+      where = f'p{i}.axes[{ax}]'
+      extra = dict(k=k, d=d, beta=beta)
+      fd_oracle.check_sketch(ctx, mk, t, where, a1['V'], ell1, a1['tail'], C,
+                             tol=1e-4, extra=extra)
+      # escaped-mass recurrence: tau' = beta * tau + r_t
+      r_t, wfull = fd_oracle.kth_eig(a0['V'], a0['e'] ** 2, G, beta, k)
+      want = beta * a0['tail'] + r_t
+      sc = max(float(wfull[0]) if len(wfull) else 0.0, a0['tail'], 1e-300)
+      tolr = 1e-4 * sc
+      okr = abs(a1['tail'] - want) <= tolr
+      zero_tick = not np.any(G)
+      if zero_tick:
+        ctx.probe('fd_zero_tick')
+      if a0['tail'] > 0 and beta < 1:
+        ctx.probe('fd_discounted_tail')
+      ctx.ev('fd_tail_recurrence', 'ok' if okr else 'violation',
+             abs(a1['tail'] - want) / tolr)
+      if not okr:
+        alt = np.sqrt(beta) * a0['tail'] + r_t
+        pred = 'tail_discounted_by_sqrt_decay' if abs(
+            a1['tail'] - alt) <= tolr else (
+                'zero_tick' if zero_tick else 'step')
+        ctx.violate('fd_tail_recurrence', mk, pred, tick=t, where=where,
+                    got=a1['tail'], want=want, prev_tail=a0['tail'], r=r_t,
+                    **extra)
+      if zero_tick:
+        # both sketch and escaped mass are discounted by exactly beta
+        d0 = np.sort(a0['e'] ** 2)[::-1] * beta
+        d1 = np.sort(ell1)[::-1]
+        okz = np.max(np.abs(d0 - d1)) <= 1e-4 * max(float(np.max(d0)), 1e-300) \
+            if k else True
+        ctx.ev('fd_zero_tick', 'ok' if okz else 'violation')
+        if not okz:
+          ctx.violate('fd_zero_tick', mk, 'sketch_not_discounted_by_decay',
+                      tick=t, where=where, **extra)
+      # history of rank <= k is tracked exactly
+      rk = np.linalg.matrix_rank(C, tol=1e-9 * max(np.trace(C), 1e-300)) \
+          if np.any(C) else 0
+      if rk <= k:
+        ctx.probe('fd_rank_deficient_history')
+        okl = a1['tail'] <= 1e-5 * max(float(np.trace(C)), 1e-300)
+        ctx.ev('fd_lowrank_exact', 'ok' if okl else 'violation')
+        if not okl:
+          ctx.violate('fd_lowrank_exact', mk, 'tail_nonzero_for_rank_le_k',
+                      tick=t, where=where, tail=a1['tail'], rank=int(rk),
+                      **extra)
+      # stored inverse roots = (l + t + eps)^(-1/p)
+      p = 2 * rank
+      und = ell1 + a1['tail']
+      eps = o['epsilon']
+      if o.get('relative_epsilon', True) and eps > 0:
+        eps = eps * float(np.max(und)) if k else eps
+      mask = a1['e'] > 0
+      with np.errstate(divide='ignore', invalid='ignore'):
+        want_inv = np.where(mask, (und + eps) ** (-1.0 / p), 0.0)
+        want_it = (a1['tail'] + eps) ** (-1.0 / p) if a1['tail'] > 0 else 0.0
+      if np.all(np.isfinite(want_inv)) and np.isfinite(want_it):
+        # the implementation forms l + t before deflation (top^2 + beta*tail)
+        tol_i = 2e-4 * (float(np.max(np.abs(want_inv))) if k else 0.0) + 1e-30
+        oki = (np.max(np.abs(a1['inv'] - want_inv)) <= tol_i if k else True) and \
+            abs(a1['inv_tail'] - want_it) <= 2e-4 * abs(want_it) + 1e-30
+        ctx.ev('fd_inverse', 'ok' if oki else 'violation')
+        if not oki:
+          ctx.violate('fd_inverse', mk, 'stored_inverse_root_mismatch', tick=t,
+                      where=where, **extra)
+      else:
+        ctx.ev('fd_inverse', 'vacuous')
+  ctx.state('fd', mk, int(upd_tick), rec['opkind'], o['rank'],
+            int(beta < 1), t % 5)
+
+
 ORACLES = {'cadence': cadence, 'refine': refine, 'warmup': warmup,
-           'graft': graft}
+           'graft': graft, 'fd': fd}
 
 
 def register(name, fn):
@@ -501,8 +620,10 @@ def run(plan, prop):
         params = [np.asarray(p + x, p.dtype) for p, x in zip(params, ups)]
     elif kind == 'CHECKPOINT':
       t, _ = view.clock(named_leaves(state))
+      import copy as _copy
       volatile[t] = (world.to_bytes(state), set(poisoned),
-                     [np.array(p) for p in params])
+                     [np.array(p) for p in params],
+                     _copy.deepcopy(ctx.__dict__.get('hist', {})))
       if op.get('sync', True):
         durable.update(volatile)
         volatile = {}
@@ -513,7 +634,9 @@ def run(plan, prop):
         continue
       keys = sorted(durable)
       k = keys[int(op.get('which', -1)) % len(keys)]
-      data, pz, pars = durable[k]
+      data, pz, pars, hist = durable[k]
+      import copy as _copy
+      ctx.hist = _copy.deepcopy(hist)
       del world, state
       world = TFWorld(plan)
       view = TFView(world)
